@@ -230,7 +230,29 @@ class Ctx:
         for t in thms:
             self.obligations.append((sub + "." + t, True))
         self.extra.setdefault("print_assumptions", {})[rel] = {"closed": closed, "blocks": n_pa}
+        if not self.quick and os.environ.get("VERIF_NO_COQCHK") != "1":
+            self.coqchk(sub, props)
         return True
+
+    def coqchk(self, sub, props="Props", timeout=2400):
+        """thorough tier: re-check the compiled closure of the property theorems with Coq's independent
+        checker and record the axioms it lists (DESIGN 2.5 / trusted base)."""
+        mod = "PP.%s.%s" % (sub, props)
+        rc, out = sh("timeout %d coqchk -silent -o -Q %s PP %s" % (timeout, COQ, mod), cwd=COQ, timeout=timeout + 60)
+        summ = out[out.find("CONTEXT SUMMARY"):] if "CONTEXT SUMMARY" in out else out[-1500:]
+        axioms = []
+        m = re.search(r"\* Axioms:(.*?)\n\s*\n\* Constants/Inductives relying on type-in-type", summ, re.S)
+        if m:
+            axioms = [l.strip() for l in m.group(1).strip().split("\n") if l.strip() and l.strip() != "<none>"]
+        bad = [k for k in ("type-in-type", "unsafe (co)fixpoints", "positivity is assumed")
+               if re.search(re.escape(k) + r": (?!<none>)", summ)]
+        self.extra.setdefault("coqchk", {})[mod] = {"exit": rc, "axioms": axioms, "flags_not_none": bad,
+                                                    "summary_excerpt": summ[:1200]}
+        if rc == 124:
+            self.note("coqchk on %s timed out after %ds (recorded, not an obligation)" % (mod, timeout))
+        elif rc != 0 or bad:
+            self.broken("coqchk", mod, summ[-1200:])
+        return rc
 
     def _theorem_at(self, rel, line):
         try:
